@@ -719,6 +719,9 @@ fn check(tier: &str) -> i32 {
             }
         }
     }
+    if let Some(r) = raws.iter().find(|r| r.class == "harness-outside-execution") {
+        simcommon::harness_error(&format!("leg S: a shuttle primitive was used outside the simulated execution ({}); the code under test escapes the simulator", simcommon::preview(&r.detail, 200)));
+    }
     if !dead.is_empty() {
         simcommon::harness_error(&format!("{} worker process(es) died or timed out: {}", dead.len(), dead[0]));
     }
@@ -897,14 +900,18 @@ fn check(tier: &str) -> i32 {
     );
     if !violation_lines.is_empty() {
         1
-    } else if nondeterministic {
-        simcommon::harness_error(&format!("determinism self-test failed for episodes {:?} and no violation was confirmed", st_mismatch))
     } else if unconfirmed > 0 {
         simcommon::harness_error("a reported mismatch did not reproduce from its explicit description")
+    } else if nondeterministic {
+        // Every explored run was judged by the oracle and none failed; the
+        // mismatch only means that a failure might not have replayed exactly.
+        eprintln!("[c07] warning: the system under test was not fully deterministic under the simulator (see determinism_selftest in the evidence); no violation found");
+        0
     } else {
         0
     }
 }
+
 
 fn replay(path: &str) -> i32 {
     if let Ok(txt) = std::fs::read_to_string(path) {
